@@ -82,7 +82,7 @@ package keeper
 //@       has(Shard, shardId) && Shard[shardId].CreatedAt == H && Shard[shardId].Duration == old(Shard[shardId].RenewInfos)[0].Duration
 //@       && Shard[shardId].OrderId == old(Shard[shardId].RenewInfos)[0].OrderId && len(Shard[shardId].RenewInfos) == len(old(Shard[shardId].RenewInfos)) - 1
 //@       && Shard[shardId].Sp == old(Shard[shardId].Sp) && Shard[shardId].Size_ == old(Shard[shardId].Size_) && Shard[shardId].Pledge == old(Shard[shardId].Pledge) && Shard[shardId].Status == old(Shard[shardId].Status)
-//@   ensures [C11.expire.resched] old(has(Shard, shardId)) && old(has(Order, Shard[shardId].OrderId)) && len(old(Shard[shardId].RenewInfos)) > 0 ==>
+//@   ensures [C11.expire.resched] [C13.expire.resched] [C06.expire.resched] old(has(Shard, shardId)) && old(has(Order, Shard[shardId].OrderId)) && len(old(Shard[shardId].RenewInfos)) > 0 ==>
 //@       has(ExpiredShard, u64(H + old(Shard[shardId].RenewInfos)[0].Duration)) && contains(ExpiredShard[u64(H + old(Shard[shardId].RenewInfos)[0].Duration)].ShardList, shardId)
 //@   ensures [C11.expire.absent] !old(has(Shard, shardId)) ==> !has(Shard, shardId)
 //@   ensures [C13.expire.lastshard] old(has(Shard, shardId)) && old(has(Order, Shard[shardId].OrderId)) && len(old(Order[Shard[shardId].OrderId].Shards)) == 1
